@@ -14,7 +14,7 @@ META = {
                  "byte count, big-endian shifts, space guard and return value; R06.2 every public write has a flush "
                  "threshold >= the widest head its argument type can need; R06.3 majors / fixed codes; R06.4 every "
                  "store through m_p is bounded by m_avail and only ctor/update_buffer/flush_buffer write m_p/m_avail; "
-                 "R06.5 write_string copies min(m_avail,left) per round and flushes between rounds. R06.1/R06.4 for write_int are decided by cell-wise partial evaluation (cells.py); R06.5 by affine analysis of every path through a loop iteration and the tail, with a ghost-counter/invariant fallback for other shapes (affine.py). R06.9: no member of the encoder receives an argument through a conversion that drops bits (controls). R06.6: `return m_p - start` is accepted only when no flush can run between the sample and the return. R06.4: a bulk memcpy to the cursor followed by update_buffer of the same amount under `n <= m_avail`.",
+                 "R06.5 write_string copies min(m_avail,left) per round and flushes between rounds. R06.1/R06.4 for write_int are decided by cell-wise partial evaluation (cells.py); R06.5 by affine analysis of every path through a loop iteration and the tail, with a ghost-counter/invariant fallback for other shapes (affine.py). R06.9: no member of the encoder receives an argument through a conversion that drops bits (controls). R06.6: `return m_p - start` is accepted only when no flush can run between the sample and the return. R06.4: a bulk memcpy to the cursor followed by update_buffer of the same amount under `n <= m_avail`. R06.3: signedness of a comparison is that of its operand after conversions (a uint64 value converted to int64 can be negative).",
     "explanation": "Abstract interpretation (intervals on the value, constant thresholds) plus structural rules over "
                    "the encoder's ~20 functions. The argument is valid for every value and every buffer fill level "
                    "because it compares constants in guards, not executions.",
